@@ -257,3 +257,60 @@ def do_fit(hist, obj, X, y, entry, seed, dataid, extra=None, expect_ok=True):
     else:
         fn = lambda: obj.fit(X, y, **kw)
     return hist.call(obj, "fit", fn, arrays, expect_ok=expect_ok, data=dataid, seed=seedtok)
+
+
+def observe_all(hist, obj, entry, X, clause, note=""):
+    ok = True
+    for m in entry.methods:
+        ok = hist.obs(obj, m, X, clause, note=note) and ok
+    return ok
+
+
+def observe_attrs(hist, obj, clause, note=""):
+    """fitted attributes (arrays / scalars ending with '_') as pseudo-methods 'attr:<name>' with a single row"""
+    h = hist.handle(obj)
+    for name in sorted(vars(obj)):
+        if not name.endswith("_") or name.startswith("_"):
+            continue
+        v = getattr(obj, name)
+        if isinstance(v, (int, float, str, bool, numpy.generic)) or (isinstance(v, numpy.ndarray) and v.dtype.kind in "fiub" and v.size < 5000):
+            hist.ev(a="obs", h=h, method="attr:" + name, clause=clause, note=note, rows=[[0, hist.ids.of(numpy.asarray(v, dtype=float) if not isinstance(v, str) else numpy.array([v], dtype=object))]])
+
+
+def validate(ctx, traces, site="lifecycle", strict_calls=False):
+    from . import tlc
+    verdicts, st = tlc.validate("LifecycleTrace", "LifecycleTrace.cfg", traces, timeout=3000, heap="6g", chunk=400)
+    ctx.states += st["states"]
+    ctx.transitions += st["transitions"]
+    byid = {t["id"]: t for t in traces}
+    for tid_, v in verdicts.items():
+        ctx.traces += 1
+        t = byid[tid_]
+        if v.ok:
+            continue
+        if not v.fails:
+            ctx.violation("NotABehaviour", t["site"], t["sig"], v.describe())
+        seen = set()
+        for clause, l_, det in v.fails:
+            keys = ""
+            if isinstance(det, dict):
+                ks = det.get("keys") or det.get("differ") or det.get("missing") or det.get("method") or det.get("kind") or []
+                keys = ",".join(sorted(str(k) for k in ks)[:3]) if isinstance(ks, list) else str(ks)
+                if det.get("note"):
+                    keys += " " + str(det["note"])
+            if (clause, keys) in seen:
+                continue
+            seen.add((clause, keys))
+            ev = t["ev"][l_ - 1] if isinstance(l_, int) and 0 < l_ <= len(t["ev"]) else {}
+            if clause == "CopyWorks" and isinstance(det, dict) and det.get("how") == "clone_with_fitted_parameters":
+                # the helper documents that it refuses some estimators (RuntimeError 'Cannot migrate ...'): a refusal is not a
+                # copy with different outputs
+                ctx.skipped.append("%s: clone_with_fitted_parameters refused: %s" % (t["site"], str(det.get("err"))[:100]))
+                continue
+            if clause == "CallSucceeds" and not strict_calls:
+                # a call the scenario expected to work raised: the properties decided here (C02-C04) do not promise that it
+                # works, so this only shortens the history; it is listed in the evidence, not reported as a violation
+                ctx.skipped.append("%s: %s raised %s" % (t["site"], keys.strip(), str(det.get("err") if isinstance(det, dict) else det)[:120]))
+                continue
+            ctx.violation(clause, t["site"], keys.strip(), "event %s (%s): %s" % (l_, ev.get("a"), str(det)[:400]))
+    ctx.extra.setdefault("trace_runs", []).append(dict(spec="LifecycleTrace", traces=len(traces), **st))
